@@ -210,6 +210,8 @@ def conditions(tier):
                   "SetBLOBVector": (2,), "NewNumberVector": (2,)}
     for k in VECTOR_KINDS:
         counts = (0, 1, 2, 3, 4) if thorough else (0, 1) + deep_quick.get(k, ())
+        if thorough and k == "DefNumberVector":
+            counts = (0, 1, 2)     # 7 fields per child: 3 and 4 children did not finish in 40 min with strings of 2
         for n in counts:
             out.append(Condition(f"perturb/{k}/{n}", make_condition(perturb(k, n, maxlen), _nstr(k, n), 2, 0),
                                  about=f"{k} with {n} children: attribute changed/dropped/added, child field changed, "
